@@ -89,6 +89,33 @@ Theorem C20_interleavings_disjoint : forall threads sched,
 Proof. exact interleavings_disjoint. Qed.
 Print Assumptions C20_interleavings_disjoint.
 
+(* nobody blocks for ever: in every reachable state in which some thread still has work, some thread can
+   execute its next instruction (the holder of the lock is never itself waiting, and it releases before it
+   finishes) -- "no call can block later callers" under any fair scheduler *)
+Theorem C20_no_deadlock_generic : forall c progs sched,
+  Forall (accepted c 0) progs ->
+  let S := run_sched (init progs) sched in
+  unfinished S ->
+  exists t i rest lo lo', nth_error (thr S) t = Some (i :: rest, lo) /\ nth_error (thr (step S t)) t = Some (rest, lo').
+Proof. exact no_deadlock. Qed.
+Print Assumptions C20_no_deadlock_generic.
+
+Theorem C20_no_deadlock_shared : forall threads sched,
+  calls_from shared_methods threads ->
+  let S := run_sched (init (map (flatten DeclFaults) threads)) sched in
+  unfinished S ->
+  exists t i rest lo lo', nth_error (thr S) t = Some (i :: rest, lo) /\ nth_error (thr (step S t)) t = Some (rest, lo').
+Proof. exact no_deadlock_shared. Qed.
+Print Assumptions C20_no_deadlock_shared.
+
+Theorem C20_no_deadlock_disjoint : forall threads sched,
+  calls_from disjoint_methods threads ->
+  let S := run_sched (init (map (flatten DeclFaults) threads)) sched in
+  unfinished S ->
+  exists t i rest lo lo', nth_error (thr S) t = Some (i :: rest, lo) /\ nth_error (thr (step S t)) t = Some (rest, lo').
+Proof. exact no_deadlock_disjoint. Qed.
+Print Assumptions C20_no_deadlock_disjoint.
+
 (* ---- non-vacuity ---- *)
 (* the checker rejects the pre-fix disjoint add_graph (explicit release + finally) and a path releasing twice exists *)
 Example C20_checker_rejects_double_release :
@@ -120,3 +147,9 @@ Example C20_without_lock_a_node_is_lost :
   let S := run_sched (init [unlocked_blank; unlocked_blank]) [0;1;0;1;0;1;0;1]%nat in
   map nkey (nodes (sh S)) = [(0, 1); (0, 1)] /\ ~ NoDup (map nkey (nodes (sh S))).
 Proof. exact unlocked_loses_a_node. Qed.
+
+(* a waiting thread: thread 1's acquire is disabled while thread 0 holds the lock, thread 0 can proceed *)
+Example C20_waiting_thread :
+  let S := run_sched (init (map (flatten DeclFaults) [[blank_call]; [blank_call]])) [0;0;1]%nat in
+  holder S = Some 0%nat /\ step S 1%nat = S /\ unfinished S /\ step S 0%nat <> S.
+Proof. exact waiting_example. Qed.
